@@ -73,6 +73,18 @@ CLAIMED = {
          "CollectorConc.tla models per-connection readers, the unbuffered hand-off to the consumer, the clients map, Stop and the wait group; TLC checks PerConnOrder, ExactlyOnce, CountZero, AfterStop and the liveness Stop ~> returned on all interleavings (2-3 clients, reliable and lossy). Real runs under -race with 1-64 concurrent tcp/udp/tls clients (clean and abrupt closes, Stop during traffic, Stop right after start): write/deliver/stop/connection-count/leak observations and race-detector reports are trace events validated by TLC.",
          "Trusted: TLC, harness logging discipline, race detector for the schedules run, goroutine-profile filter for leak detection.",
          "TLA+ CollectorConc spec (TLC exhaustive + liveness) + TLC trace validation of concurrent real runs under -race"),
+ "C18": ("DESIGN.md §4 C18",
+         "Transport.tla states the admission policy as operators over a configuration cell (server certificate, ServerName, client certificate, client CA, protocol, peer max version, plaintext peer); TLC checks the property's implications over the whole matrix (4032 cells). One real handshake (and message) is run per cell of the exercised matrix against the real exporter or collector with certificates minted per run, and TLC validates each observed outcome (established / delivered / version / nothing sent in the clear) against the policy.",
+         "Trusted: TLC, crypto/tls and pion/dtls (the handshake implementations), the harness peers. DTLS without ServerName is permissive; DTLS client authentication is not claimed.",
+         "TLA+ Transport policy spec (TLC over the configuration matrix) + one real handshake per cell + TLC validation"),
+ "C19": ("DESIGN.md §4 C19",
+         "Kafka.tla specifies out = flatten(in): one expected Kafka message per data record in order, none for templates, with the schema's element-to-field mapping and the message header fields; TLC checks it exhaustively on small streams. The real PublishIPFIXMessages runs with both shipped convertors against a fake AsyncProducer; TLC validates topic, 4-byte big-endian length prefix, protobuf well-formedness, field-by-field equality (fields read by the harness's own wire reader) and the consumer-side decoder's result.",
+         "Trusted: TLC, the harness's protobuf wire reader and field-number table, the fake producer. Values below 2^31.",
+         "TLA+ Kafka spec (TLC exhaustive) + TLC trace validation of published payloads"),
+ "C20": ("DESIGN.md §4 C20",
+         "Store.tla specifies the bounded window (evict oldest at the cap), the /records query (status and result) and /reset; TLC checks Bounded, MostRecentInOrder and the query result exhaustively with cap 3. An in-package driver (injected with -overlay) drives addIPFIXMessage and the HTTP handlers through several multiples of the real cap; TLC validates every arrival (incl. that every field of every record is rendered by name and value), query and reset.",
+         "Trusted: TLC, the driver's parsing of rendered entries, go's -overlay. The cap constant is read from the source at check time.",
+         "TLA+ Store spec (TLC exhaustive) + TLC trace validation of an in-package driver run"),
 }
 PENDING = {}
 
